@@ -26,9 +26,18 @@ struct Transcript {
     panic: Option<String>,
 }
 
+#[allow(unused_macros)]
 macro_rules! transcript_fn {
     ($name:ident, $krate:ident) => {
         fn $name(text: &str, strict: bool, fragment: bool) -> Transcript {
+            $name(text, strict, fragment, None)
+        }
+    };
+}
+
+macro_rules! transcript_file_fn {
+    ($name:ident, $krate:ident) => {
+        fn $name(text: &str, strict: bool, fragment: bool, file: Option<&std::path::Path>) -> Transcript {
             let mut t = Transcript::default();
             $krate::verif_hooks::reset(64 * text.len() as u64 + 100_000);
             let r = guarded(|| {
@@ -45,7 +54,11 @@ macro_rules! transcript_fn {
                     }
                     return t;
                 }
-                match $krate::load_from_string(text, None, strict) {
+                let loaded = match file {
+                    Some(p) => $krate::load(p, None, strict),
+                    None => $krate::load_from_string(text, None, strict),
+                };
+                match loaded {
                     Err(e) => t.result = format!("Err: {e}"),
                     Ok((mut a2l, log)) => {
                         t.result = "Ok".into();
@@ -82,8 +95,97 @@ macro_rules! transcript_fn {
     };
 }
 
-transcript_fn!(transcript_shipped, a2lfile);
-transcript_fn!(transcript_regen, a2lfile_regen);
+transcript_file_fn!(transcript_shipped_f, a2lfile);
+transcript_file_fn!(transcript_regen_f, a2lfile_regen);
+fn transcript_shipped(text: &str, strict: bool, fragment: bool) -> Transcript {
+    transcript_shipped_f(text, strict, fragment, None)
+}
+fn transcript_regen(text: &str, strict: bool, fragment: bool) -> Transcript {
+    transcript_regen_f(text, strict, fragment, None)
+}
+
+/// children of a block as the text of an include file
+fn children_text(children: &[vcommon::doc::Child], lc: &LayoutCfg, rng: &mut Rng) -> String {
+    use vcommon::doc::{Child, FTok, Flat};
+    let mut f = Flat::empty();
+    for c in children {
+        match c {
+            Child::Elem(e) => vcommon::doc::flatten_elem(e, 2, u32::MAX, true, false, &mut f),
+            Child::Comment(t) => f.toks.push(FTok { tok: Tok::comment(t), depth: 2, elem: 0, slot_before: true, file_level: false, in_ifdata: false, owner_tag_idx: 0, param_idx: -1 }),
+            Child::Raw(toks) => {
+                for t in toks {
+                    f.toks.push(FTok { tok: t.clone(), depth: 2, elem: 0, slot_before: false, file_level: false, in_ifdata: true, owner_tag_idx: 0, param_idx: -1 });
+                }
+            }
+        }
+    }
+    render(&f, lc, rng).text
+}
+
+/// Move the optional sub-elements of up to three blocks (any kind, any depth) into include files of
+/// their own, with comments at the head, in the middle and at the end of each include file; returns
+/// the main text. The files are written into `dir`.
+fn split_into_includes(rng: &mut Rng, doc: &mut vcommon::doc::Doc, dir: &std::path::Path, lc: &LayoutCfg) -> usize {
+    use vcommon::doc::{Child, Elem};
+    fn blocks<'a>(e: &'a mut Elem, out: &mut Vec<*mut Elem>) {
+        if e.is_block && e.has_opts && e.tag != "A2ML" && e.tag != "IF_DATA" && e.children.iter().any(|c| matches!(c, Child::Elem(_))) {
+            out.push(e as *mut Elem);
+        }
+        for c in &mut e.children {
+            if let Child::Elem(k) = c {
+                blocks(k, out);
+            }
+        }
+    }
+    // candidates: collect tag paths by index instead of pointers
+    fn collect(e: &Elem, path: &mut Vec<usize>, out: &mut Vec<Vec<usize>>) {
+        if e.is_block && e.has_opts && e.tag != "A2ML" && e.tag != "IF_DATA" && e.tag != "PROJECT" && e.children.iter().any(|c| matches!(c, Child::Elem(_))) {
+            out.push(path.clone());
+        }
+        for (i, c) in e.children.iter().enumerate() {
+            if let Child::Elem(k) = c {
+                path.push(i);
+                collect(k, path, out);
+                path.pop();
+            }
+        }
+    }
+    let _ = blocks;
+    let project_idx = doc.top.iter().position(|e| e.tag == "PROJECT").unwrap();
+    let mut cands = Vec::new();
+    collect(&doc.top[project_idx], &mut Vec::new(), &mut cands);
+    rng.shuffle(&mut cands);
+    // only blocks that are not nested in each other: keep paths that are not prefixes of one another
+    let mut chosen: Vec<Vec<usize>> = Vec::new();
+    for c in cands {
+        if chosen.len() >= 3 {
+            break;
+        }
+        if chosen.iter().all(|o| !(o.starts_with(&c) || c.starts_with(o))) {
+            chosen.push(c);
+        }
+    }
+    let mut n = 0;
+    for (k, path) in chosen.iter().enumerate() {
+        let mut e = &mut doc.top[project_idx];
+        for i in path {
+            e = match &mut e.children[*i] {
+                Child::Elem(x) => x,
+                _ => unreachable!(),
+            };
+        }
+        let mut kids = std::mem::take(&mut e.children);
+        kids.insert(0, Child::Comment(format!("/* head of include file {k} */")));
+        let mid = kids.len() / 2 + 1;
+        kids.insert(mid.min(kids.len()), Child::Comment(format!("// inside include file {k}")));
+        kids.push(Child::Comment(format!("/* end of include file {k} */")));
+        let name = format!("inc{k}.a2l");
+        std::fs::write(dir.join(&name), children_text(&kids, lc, rng)).unwrap();
+        e.children = vec![Child::Raw(vec![Tok::word(TK::Ident, "/include"), Tok::word(TK::Ident, &name)])];
+        n += 1;
+    }
+    n
+}
 
 fn compare(a: &Transcript, b: &Transcript) -> Option<(String, String)> {
     // a panic on one side only is a disagreement; on both sides it is C03's business
@@ -225,6 +327,47 @@ fn run(args: &Args, rec: &mut Recorder) {
                 }
             }
         };
+        // one case in twelve: a generated document split over include files (sub-elements of up to
+        // three blocks of any kind, comments inside the include files), loaded from disk by both builds
+        if case >= n_sys && case % 12 == 1 {
+            let mut cfg = GenCfg::default();
+            cfg.max_elems = *rng.pick(&[30usize, 80]);
+            cfg.opt_pct = rng.urange(30, 80) as u32;
+            cfg.comments_pct = 10;
+            cfg.a2ml = false;
+            let mut gen = DocGen::new(&g, cfg);
+            let mut doc = gen.gen_doc(rng);
+            let dir = std::env::temp_dir().join(format!("probe20_{}_{}", std::process::id(), args.shard));
+            let _ = std::fs::remove_dir_all(&dir);
+            std::fs::create_dir_all(&dir).unwrap();
+            let lc = LayoutCfg::c05(rng);
+            let n_inc = split_into_includes(rng, &mut doc, &dir, &lc);
+            let main_text = render(&doc.flatten(), &lc, rng).text;
+            let main = dir.join("main.a2l");
+            std::fs::write(&main, &main_text).unwrap();
+            rec.nontrivial(main_text.as_bytes());
+            rec.bump("input.include_tree");
+            rec.add("include_files", n_inc as u64);
+            for strict in [false, true] {
+                rec.eval();
+                let a = transcript_shipped_f(&main_text, strict, false, Some(&main));
+                let b = transcript_regen_f(&main_text, strict, false, Some(&main));
+                rec.bump("transcripts_compared");
+                if a.result == "Ok" {
+                    rec.bump("include_tree.Ok");
+                }
+                if let Some((what, detail)) = compare(&a, &b) {
+                    let files: Vec<String> = (0..n_inc).map(|k| format!("inc{k}.a2l: {}", clip(&std::fs::read_to_string(dir.join(format!("inc{k}.a2l"))).unwrap_or_default(), 4000))).collect();
+                    rec.violation(
+                        &format!("shipped and regenerated builds disagree: {what} [include tree]"),
+                        &format!("strict={strict}: {detail}"),
+                        Json::obj().with("origin", Json::s("include tree")).with("strict", Json::Bool(strict)).with("main.a2l", Json::s(&clip(&main_text, 30000))).with("include_files", Json::s(&files.join("\n----\n"))),
+                    );
+                }
+            }
+            let _ = std::fs::remove_dir_all(&dir);
+            return None;
+        }
         rec.nontrivial(text.as_bytes());
         rec.bump(&format!("input.{}", origin.split('/').next().unwrap_or("")));
         for (strict, fragment) in [(false, false), (true, false), (false, true)] {
@@ -264,6 +407,7 @@ fn run(args: &Args, rec: &mut Recorder) {
     });
     rec.floor("input.G-doc", 10);
     rec.floor("input.hostile", 10);
+    rec.floor("include_tree.Ok", 10);
     rec.floor("input.unknown_element_inserted", 5);
     rec.floor("result.Ok", 10);
     rec.floor("result.Ok+log", 5);
